@@ -1,6 +1,7 @@
 package main
 
 import (
+	"bytes"
 	"fmt"
 	"io"
 	"math/rand/v2"
@@ -156,10 +157,7 @@ func protocolProblems(evs []pj.Event, root string, runErr string, want map[strin
 
 // expectedLines: what a line-oriented consumer must see for the concatenation of the chunks.
 func expectedLines(chunks [][]byte) []string {
-	text := ""
-	for _, c := range chunks {
-		text += string(c)
-	}
+	text := string(bytes.Join(chunks, nil))
 	if text == "" {
 		return nil
 	}
@@ -206,6 +204,10 @@ func c18Case(c *core.Ctx, id string) {
 	}
 	if strings.HasPrefix(id, "chunk/") {
 		c18Chunkings(c, id)
+		return
+	}
+	if strings.HasPrefix(id, "long/") {
+		c18Long(c, id)
 		return
 	}
 	g := &pj.Gen{R: c.Rand(id)}
@@ -510,15 +512,74 @@ func c18Chunkings(c *core.Ctx, id string) {
 	c.SampleKey("chunkings", map[string]any{"case": id, "text": text, "chunkings": 1 << (n - 1)})
 }
 
+// c18Long: very long lines (around the 4 KiB and 64 KiB buffer sizes of the usual line scanners, and 1 MiB) through the real
+// lineWriter of a target, between ordinary lines and followed by an unterminated tail, under five chunk sizes.
+var c18LongLens = []int{1000, 4095, 4096, 4097, 65535, 65536, 65537, 100000, 1 << 20}
+var c18LongChunks = []int{0, 7, 4096, 32768, 65536}
+
+func c18Long(c *core.Ctx, id string) {
+	var k int
+	fmt.Sscanf(id, "long/%d", &k)
+	n := c18LongLens[k/len(c18LongChunks)%len(c18LongLens)]
+	cs := c18LongChunks[k%len(c18LongChunks)]
+	dir := filepath.Join(c.Scratch, fmt.Sprintf("c18l-%d", os.Getpid()))
+	os.RemoveAll(dir)
+	defer os.RemoveAll(dir)
+	s := pj.NewSession(dir)
+	os.WriteFile(filepath.Join(s.Root, "dawn.toml"), []byte("name = \"c\"\n"), 0o644)
+	os.WriteFile(filepath.Join(s.Root, "BUILD.dawn"), []byte("def t(self):\n    v.emit(\"//:t\")\ntarget(name=\"t\", function=t, always=True)\n"), 0o644)
+	long := make([]byte, n)
+	for i := range long {
+		long[i] = byte('a' + (i*7+i/251)%26)
+	}
+	text := append([]byte("before\n"), long...)
+	text = append(text, []byte("\nafter one\n\nafter two\r\npartial tail")...)
+	var chunks [][]byte
+	if cs == 0 {
+		chunks = [][]byte{text}
+	} else {
+		for b := text; len(b) > 0; {
+			m := cs
+			if m > len(b) {
+				m = len(b)
+			}
+			chunks = append(chunks, b[:m])
+			b = b[m:]
+		}
+	}
+	c18mu.Lock()
+	c18chunks = map[string][][]byte{"//:t": chunks}
+	c18mu.Unlock()
+	res := pj.Build(pj.BuildReq{Root: s.Root, Target: "//:t"})
+	want := map[string][]string{"//:t": expectedLines(chunks)}
+	probs := protocolProblems(res.Events, "//:t", res.RunErr, want, nil, true)
+	c.Eval(id)
+	c.Distinct(fmt.Sprintf("long/%d/%d", n, cs))
+	c.Count("long_line_builds", 1)
+	c.Max("longest_line_bytes", int64(n))
+	if res.LoadErr != "" || len(probs) > 0 {
+		for i, p := range probs {
+			if len(p) > 400 {
+				probs[i] = p[:400] + "..."
+			}
+		}
+		c.Violation(id, "", "event-protocol-violated", map[string]any{"problems": probs, "long_line_bytes": n, "chunk_size": cs, "writes": len(chunks), "load_error": res.LoadErr, "run_error": res.RunErr})
+	}
+}
+
 func runC18(c *core.Ctx) {
 	c.SetRule("generated projects (parallel fan-outs, emitting bodies with PRNG-chunked text incl. empty lines, trailing partial lines, multi-byte runes split across writes, failing bodies, " +
-		"missing and cyclic dependencies, dry runs, always) x 4-6 builds each, two Runs on one loaded project, every chunking (2^(n-1)) of 8 short texts through the real lineWriter; " +
+		"missing and cyclic dependencies, dry runs, always) x 4-6 builds each, two Runs on one loaded project, every chunking (2^(n-1)) of 8 short texts through the real lineWriter, " +
+		"lines of 1000..1 MiB bytes (around 4 KiB and 64 KiB) x 5 chunk sizes; " +
 		"a recorder implementing dawn.Events logs everything under one mutex, the offline checker applies the per-label grammar U | E P* S | E P* F | F, the RunDone rules, " +
 		"line equality, 'evaluating iff the body ran' (execution log), and the same grammar on the run(callback=) channel; plain and -race; " +
 		"non-trivial = a run with output lines or an error; distinct = distinct (project, build, run)")
 	var ids []string
 	for ti := 0; ti < 8; ti++ {
 		ids = append(ids, fmt.Sprintf("chunk/%d", ti))
+	}
+	for k := 0; k < len(c18LongLens)*len(c18LongChunks); k++ {
+		ids = append(ids, fmt.Sprintf("long/%d", k))
 	}
 	n := c.N(300, 10000)
 	for i := 0; i < n; i++ {
